@@ -12,6 +12,7 @@
 //! control, every wrapper is a plain pass-through to the real primitive.
 #![allow(missing_docs, missing_debug_implementations, dead_code)]
 
+extern crate alloc;
 use ::core::sync::atomic::{AtomicUsize as RawUsize, Ordering as RawOrdering};
 
 /// `hook(kind, addr, a, b) -> r`; `PASS` means "not controlled, do the real thing".
@@ -461,20 +462,35 @@ pub struct Peek {
     pub recv_count: u32,
 }
 
+/// Keeps the channel allocation alive (without being a sender or receiver) and
+/// reads its state without locking.
 #[cfg(not(feature = "std-mutex"))]
-pub(crate) fn peek_internal<T>(
-    internal: &crate::internal::Internal<T>,
-    mut id: impl FnMut(&T) -> u64,
-) -> Peek {
-    // Safety: see `Peek`; no thread is running inside a critical section body
-    let i = unsafe { &*internal.data_ptr() };
-    Peek {
-        queue: i.queue.iter().map(&mut id).collect(),
-        wait_list: i.wait_list.iter().map(|t| t.verif_addr()).collect(),
-        recv_blocking: i.recv_blocking,
-        capacity: i.capacity,
-        send_count: i.send_count,
-        recv_count: i.recv_count,
+pub struct Peeker<T> {
+    internal: crate::internal::Internal<T>,
+}
+
+#[cfg(not(feature = "std-mutex"))]
+impl<T> Peeker<T> {
+    pub(crate) fn new(internal: &crate::internal::Internal<T>) -> Self {
+        Self {
+            internal: internal.clone(),
+        }
+    }
+    /// Safety: see `Peek`; no thread may be running inside a critical section body.
+    pub unsafe fn peek(&self, mut id: impl FnMut(&T) -> u64) -> Peek {
+        let i = &*self.internal.data_ptr();
+        Peek {
+            queue: i.queue.iter().map(&mut id).collect(),
+            wait_list: i.wait_list.iter().map(|t| t.verif_addr()).collect(),
+            recv_blocking: i.recv_blocking,
+            capacity: i.capacity,
+            send_count: i.send_count,
+            recv_count: i.recv_count,
+        }
+    }
+    /// Number of live references to the channel allocation, this one included.
+    pub fn refs(&self) -> usize {
+        alloc::sync::Arc::strong_count(&self.internal)
     }
 }
 
